@@ -12,7 +12,8 @@ Universe (plain JSON, also the corpus format):
        | {"kind":"enum","name":N,"tagging":{"k":"external"|"untagged"}|{"k":"internal","tag":s}
                                             |{"k":"adjacent","tag":s,"content":s},
           "rename_all":R|None,"deny":bool,"variants":[variant...]}
-  field   = {"name":ident,"ty":ty,"rename":s|None,"default":bool,"skip_none":bool}
+  field   = {"name":ident,"ty":ty,"rename":s|None,"default":bool,"skip_none":bool,
+             "default_val": JSON value (optional): #[serde(default = "fn")] with fn returning that NON-intrinsic value}
   variant = {"name":Ident,"rename":s|None,"kind":"unit"|"newtype"|"tuple"|"struct",
              "tys":[ty...] (newtype: 1, tuple: >=2), "fields":[field...], "rename_all":R|None}
   ty  = {"k":"bool"|"string"|"unit"} | {"k":"int","n":"u8"..} | {"k":"float","n":"f32"|"f64"}
@@ -193,7 +194,11 @@ class Gen:
                 f["rename"] = r.choice(FIELD_RENAMES)
             if defaultable(f["ty"]) and self.on("field-default", 0.25):
                 f["default"] = True
-            if f["ty"]["k"] == "option" and self.on("skip-none", 0.45):
+            if not f["default"] and self.on("field-default-fn", 0.22):
+                dv = nondefault_value(f["ty"], r)
+                if dv is not None:
+                    f["default_val"] = dv
+            if f["ty"]["k"] == "option" and "default_val" not in f and self.on("skip-none", 0.45):
                 f["skip_none"] = True
         return out
 
@@ -413,6 +418,8 @@ def json_kinds(t, byname):
     if d["kind"] == "unit_struct":
         return {"null"}
     if d["kind"] == "newtype":
+        if strip_box(d["ty"])["k"] == "ref":
+            return {"complex"}      # definition = {"$ref": ..}: typify's resolve() follows one $ref only
         return json_kinds(d["ty"], byname)
     if d["tagging"]["k"] == "external" and all(v["kind"] == "unit" for v in d["variants"]):
         return {"string"}
@@ -432,6 +439,95 @@ def variant_kinds(v, byname):
 # constructs excluded from the random stream: each is a recorded finding (or a C01-territory rejection)
 # represented by its witness in corpus/C04
 RANDOM_PROFILE = {"exclude": ("untagged-overlap", "null-payload")}
+
+
+def nondefault_value(t, rng):
+    """a value of type t (serde JSON form) that differs from Default::default(), or None when unsupported."""
+    k = t["k"]
+    if k == "bool":
+        return True
+    if k == "int":
+        lo, hi = INTS[t["n"]]
+        return rng.choice([7, hi, 1] + ([-3, lo] if lo < 0 else [200]))
+    if k == "float":
+        return rng.choice([1.5, -2.25, 1024.0])
+    if k == "string":
+        return rng.choice(["preset", "x y", "é"])
+    if k == "option":
+        return nondefault_value(t["t"], rng)
+    if k == "box":
+        return nondefault_value(t["t"], rng)
+    if k == "vec":
+        v = nondefault_value(t["t"], rng)
+        return None if v is None else [v] * rng.choice([1, 2])
+    if k in ("hashmap", "btreemap"):
+        v = nondefault_value(t["t"], rng)
+        return None if v is None else {kk: v for kk in rng.sample(["k", "a b", "key2"], rng.choice([1, 2]))}
+    if k == "tuple":
+        vs = [nondefault_value(x, rng) for x in t["ts"]]
+        return None if any(v is None for v in vs) else vs
+    if k == "array":
+        v = nondefault_value(t["t"], rng)
+        return None if v is None else [v] * t["n"]
+    return None     # unit, references
+
+
+def empty_value(t):
+    """the intrinsic-empty value of a type (what Default::default() serialises to), or None when there is none."""
+    k = t["k"]
+    if k == "bool":
+        return (False,)
+    if k == "int":
+        return (0,)
+    if k == "float":
+        return (0.0,)
+    if k == "string":
+        return ("",)
+    if k == "option":
+        return (None,)
+    if k == "vec":
+        return ([],)
+    if k in ("hashmap", "btreemap"):
+        return ({},)
+    if k == "box":
+        return empty_value(t["t"])
+    if k == "tuple":
+        vs = [empty_value(x) for x in t["ts"]]
+        return None if any(v is None for v in vs) else ([v[0] for v in vs],)
+    if k == "array":
+        v = empty_value(t["t"])
+        return None if v is None else ([v[0]] * t["n"],)
+    return None
+
+
+def rs_expr(t, v):
+    """Rust expression of type t for the serde JSON form v."""
+    k = t["k"]
+    if k == "bool":
+        return "true" if v else "false"
+    if k == "int":
+        return "(%d as %s)" % (v, t["n"]) if v >= 0 else "(%d%s)" % (v, t["n"])
+    if k == "float":
+        return "(%r as %s)" % (float(v), t["n"])
+    if k == "string":
+        return "String::from(%s)" % json.dumps(v, ensure_ascii=False)
+    if k == "unit":
+        return "()"
+    if k == "option":
+        return "None" if v is None else "Some(%s)" % rs_expr(t["t"], v)
+    if k == "box":
+        return "Box::new(%s)" % rs_expr(t["t"], v)
+    if k == "vec":
+        return "vec![%s]" % ", ".join(rs_expr(t["t"], x) for x in v)
+    if k in ("hashmap", "btreemap"):
+        ty = "HashMap" if k == "hashmap" else "BTreeMap"
+        return "::std::collections::%s::from([%s])" % (ty, ", ".join(
+            "(String::from(%s), %s)" % (json.dumps(kk, ensure_ascii=False), rs_expr(t["t"], x)) for kk, x in v.items()))
+    if k == "tuple":
+        return "(%s,)" % ", ".join(rs_expr(x, y) for x, y in zip(t["ts"], v))
+    if k == "array":
+        return "[%s]" % ", ".join(rs_expr(t["t"], x) for x in v)
+    raise ValueError(k)
 
 
 def generate(seed, n, profile=None):
@@ -478,13 +574,28 @@ def rs_lit(s):
     return json.dumps(s)
 
 
-def rs_fields(fields, indent, pub):
+def default_fn_name(prefix, f):
+    return "dflt_%s_%s" % (prefix, f["name"])
+
+
+def rs_default_fns(fields, prefix):
+    out = []
+    for f in fields:
+        if "default_val" in f:
+            out.append("fn %s() -> %s {\n    %s\n}\n" % (default_fn_name(prefix, f), rs_ty(f["ty"]),
+                                                        rs_expr(f["ty"], f["default_val"])))
+    return "".join(out)
+
+
+def rs_fields(fields, indent, pub, prefix=""):
     out = []
     for f in fields:
         at = []
         if f.get("rename") is not None:
             at.append("rename = %s" % rs_lit(f["rename"]))
-        if f.get("default"):
+        if "default_val" in f:
+            at.append("default = %s" % rs_lit(default_fn_name(prefix, f)))
+        elif f.get("default"):
             at.append("default")
         if f.get("skip_none"):
             at.append('skip_serializing_if = "Option::is_none"')
@@ -519,7 +630,8 @@ def rs_def(d):
     if at:
         out.append("#[serde(%s)]\n" % ", ".join(at))
     if k == "struct":
-        out.append("pub struct %s {\n%s}\n" % (d["name"], rs_fields(d["fields"], "    ", True)))
+        out.append("pub struct %s {\n%s}\n" % (d["name"], rs_fields(d["fields"], "    ", True, d["name"])))
+        out.append(rs_default_fns(d["fields"], d["name"]))
     elif k == "tuple_struct":
         out.append("pub struct %s(%s);\n" % (d["name"], ", ".join("pub " + rs_ty(t) for t in d["tys"])))
     elif k == "newtype":
@@ -541,8 +653,11 @@ def rs_def(d):
             elif v["kind"] in ("newtype", "tuple"):
                 out.append("    %s(%s),\n" % (v["name"], ", ".join(rs_ty(t) for t in v["tys"])))
             else:
-                out.append("    %s {\n%s    },\n" % (v["name"], rs_fields(v["fields"], "        ", False)))
+                out.append("    %s {\n%s    },\n" % (v["name"], rs_fields(v["fields"], "        ", False,
+                                                                             d["name"] + "_" + v["name"])))
         out.append("}\n")
+        for v in d["variants"]:
+            out.append(rs_default_fns(v["fields"], d["name"] + "_" + v["name"]))
     return "".join(out)
 
 
@@ -604,8 +719,12 @@ class Sampler:
         r = self.r
         o = {}
         for f in fields:
-            optional = f["default"] or cdefault or f["ty"]["k"] == "option"
+            optional = f["default"] or cdefault or f["ty"]["k"] == "option" or "default_val" in f
             if optional and r.random() < 0.35:
+                continue
+            if "default_val" in f and r.random() < 0.5:
+                ev = empty_value(f["ty"])
+                o[field_wire(f, rule)] = ev[0] if (ev is not None and r.random() < 0.6) else f["default_val"]
                 continue
             o[field_wire(f, rule)] = self.ty(f["ty"], depth)
         if not deny and r.random() < 0.08:
@@ -653,10 +772,55 @@ class Sampler:
                 o.setdefault(kk, vv)
         return o
 
+    def targeted(self, name, depth=2):
+        """for every member with a default function: one value carrying the type's intrinsic-empty value and one
+        carrying the custom default itself (and the member is then present, not omitted)."""
+        d = self.by[name]
+        out = []
+
+        def body_of(j, d, v):
+            if d["kind"] == "struct":
+                return j
+            tg = d["tagging"]
+            if tg["k"] == "external":
+                return j[variant_wire(v, d["rename_all"])]
+            if tg["k"] == "adjacent":
+                return j[tg["content"]]
+            return j
+        groups = []
+        if d["kind"] == "struct":
+            groups.append((None, None, d["fields"], d["rename_all"]))
+        elif d["kind"] == "enum":
+            for vi, v in enumerate(d["variants"]):
+                if v["kind"] == "struct":
+                    groups.append((vi, v, v["fields"], v["rename_all"]))
+        for vi, v, fields, rule in groups:
+            for f in fields:
+                if "default_val" not in f:
+                    continue
+                vals = [f["default_val"]]
+                ev = empty_value(f["ty"])
+                if ev is not None:
+                    vals.insert(0, ev[0])
+                for val in vals:
+                    try:
+                        j = self.named(name, depth, variant=vi)
+                        body_of(j, d, v)[field_wire(f, rule)] = val
+                    except (RecursionError, KeyError, TypeError):
+                        continue
+                    out.append(j)
+        return out
+
     def candidates(self, name, n, depth=3):
         d = self.by[name]
         out = []
         seen = set()
+        for j in self.targeted(name):
+            sj = json.dumps(j, sort_keys=True, ensure_ascii=False)
+            if sj not in seen and len(sj) < 4000:
+                seen.add(sj)
+                out.append(j)
+        n += len(out)
         nv = len(d["variants"]) if d["kind"] == "enum" else 0
         tries = 0
         while len(out) < n and tries < 4 * n + 8:
@@ -803,6 +967,9 @@ def features(u):
                 fs.add("field-default:" + f["ty"]["k"])
             if f.get("skip_none"):
                 fs.add("skip-none")
+            if "default_val" in f:
+                fs.add("field-default-fn")
+                fs.add("field-default-fn:" + strip_box(f["ty"])["k"])
     for d in u["types"]:
         fs.add("kind:" + d["kind"])
         if d["kind"] == "struct":
@@ -890,8 +1057,10 @@ def cq_bool(b):
 
 
 def cq_field(f):
-    return "(mkRField %s %s %s %s %s)" % (ustr(f["name"]), cq_ty(f["ty"]), cq_opt(f.get("rename")),
-                                           cq_bool(f.get("default")), cq_bool(f.get("skip_none")))
+    import tocoq
+    dv = "(Some %s)" % tocoq.cjson(f["default_val"]) if "default_val" in f else "None"
+    return "(mkRField %s %s %s %s %s %s)" % (ustr(f["name"]), cq_ty(f["ty"]), cq_opt(f.get("rename")),
+                                              cq_bool(f.get("default")), cq_bool(f.get("skip_none")), dv)
 
 
 def cq_def(d):
